@@ -1,7 +1,7 @@
 (* C09 — Jailed validators have no power; unjail and tombstone rules hold. Statements only. *)
 From Coq Require Import List ZArith NArith Bool.
 From PM Require Import Base.Bytes Store.KV Store.MergeProofs Num.IntModel Num.DecModel Num.DecProofs
-  App.Model App.BankProofs App.TxProofs App.KeyProofs App.PosProofs App.Examples.
+  App.Model App.BankProofs App.TxProofs App.KeyProofs App.PosProofs App.IndexProofs App.TombProofs App.Examples App.Invariants.
 Import ListNotations.
 Local Open Scope Z_scope.
 
@@ -25,6 +25,21 @@ Proof. exact (double_sign_tombstones s a h t p s'). Qed.
 Theorem C09_tombstoned_never_unjails s a si : aget (sinfo s) a = Some si -> si_tomb si = true ->
   forall s', handle s (MUnjail a) <> HOk s'.
 Proof. exact (tombstoned_never_unjails s a si). Qed.
+(* ---- every continuation of every history ---- *)
+(* a jailed validator has no entry in the power index, in every reachable state *)
+Theorem C09_jailed_never_in_index_all_histories ops s s' a v : idx_sound s -> run ops s = Some s' ->
+  get_val s' a = Some v -> v_jailed v = true -> forall k, aget (powidx s') k <> Some a.
+Proof. intros H E. exact (jailed_never_indexed s' a v (run_is ops s s' H E)). Qed.
+(* tombstoned and jailed permanently (finding F24 repaired: a tombstoned address never stakes again) *)
+Theorem C09_tombstoned_forever ops s s' a : tomb_ok s -> tombed (sinfo s) a -> run ops s = Some s' ->
+  tombed (sinfo s') a /\ forall v, get_val s' a = Some v -> v_jailed v = true.
+Proof. exact (tombstoned_forever ops s s' a). Qed.
+Theorem C09_tombstoned_never_regains_power ops s s' a : tomb_ok s -> idx_sound s -> tombed (sinfo s) a ->
+  run ops s = Some s' -> forall k, aget (powidx s') k <> Some a.
+Proof. exact (tombstoned_never_indexed ops s s' a). Qed.
+Theorem C09_genesis_tomb_ok s0 gvals dao s ups : tomb_ok s0 -> (forall a, ~ tombed (sinfo s0) a) ->
+  init_chain s0 gvals dao = Some (s, ups) -> tomb_ok s.
+Proof. exact (init_chain_tomb s0 gvals dao s ups). Qed.
 Example C09_ex : match ex_genesis with
   | Some (s, _) => match handle_double_sign (set_block s 5 50) A1 4 40 2 with
                    | Some s' => option_map v_jailed (get_val s' A1) = Some true /\ powidx s' = [] /\
@@ -34,3 +49,6 @@ Example C09_ex : match ex_genesis with
 Proof. vm_compute. repeat split; try reflexivity. intros s'' H; discriminate H. Qed.
 Print Assumptions C09_unjail_preconditions.
 Print Assumptions C09_double_sign_tombstones.
+Print Assumptions C09_tombstoned_forever.
+Print Assumptions C09_tombstoned_never_regains_power.
+Print Assumptions C09_jailed_never_in_index_all_histories.
